@@ -211,6 +211,22 @@ def rule_k1(ctx: Ctx) -> None:
             else:
                 ctx.violation("C17-K1", fi, fp.node, "BiSC's private test does not accept exactly when no hit cell intersects the shading R")
     ctx.note(f"clone family: {[fi.qual for fi, _ in fps]}")
+    # every private containment test of BiSC is a member of the family, or hands the cell computation to one
+    from ..skelrules import reaches_call
+
+    members = {fi.where for fi, _ in fps}
+    helper_names = {fi.name for fi, _ in fps}
+    mod = repo.module("permuta.bisc.bisc_subfunctions")
+    for name in ("mesh_contains_cl_patt_many_shadings", "mesh_contains_cl_patt_many_shadings_with_positions", "perm_contains_cl_patt_many_shadings"):
+        f = mod.functions.get(name)
+        if f is None:
+            raise AnalysisError(f"private containment test {name} vanished")
+        if f.where in members:
+            continue
+        if any(reaches_call(repo, f, h) for h in helper_names if h != name) or reaches_call(repo, f, "contains") or reaches_call(repo, f, "occurrences_in") and reaches_call(repo, f, "MeshPatt"):
+            ctx.ok("C17-K1", f.where, "delegates the cell-of-point computation to a member of the family / to mesh-pattern containment", f.node, f)
+            continue
+        raise AnalysisError(f"{f.where}: no cell-of-point computation recognised in it or in what it calls; agreement with mesh-pattern containment is not decided")
 
 
 def _assigned_from(fi: FuncInfo, value_txt: str) -> List[str]:
